@@ -6,6 +6,7 @@ An abstract program is a block of statements over named holders:
   ('set', x, op, atoms)         (set! x (op atoms))     x was introduced by ('def', ...) and is a boxed variable from then on
   ('gset', g, atom)             (set! g atom)           g is a global declared in front of `main`
   ('clo', f, x)                 f := (lambda () x)      a closure capture holding x; the atom ('c', f) reads it back
+  ('box', b, x)                 b := (box x)            a mutable cell holding x; the atom ('b', b) reads it back
   ('print', tag, atom)
   ('kont', r, k, n)             r := (call/cc ...) ; the rest of the block runs for r = 0..n (re-entered through k)
   ('spawn', t, chans, block)    a second/third thread running `block`; it sees every immutable local of the spawner
@@ -14,7 +15,7 @@ An abstract program is a block of statements over named holders:
   ('join', t)                   prints the lines the thread collected
   ('loop', y, op, x, n)         y := op applied n times to x, the i-th time with key/element i (named let, accumulator)
 
-atoms: ('h', name) | ('c', closure) | ('i', int) | ('s', text)
+atoms: ('h', name) | ('c', closure) | ('b', box) | ('i', int) | ('s', text)
 
 Values of the pure oracle S (python side; the Lean driver `c03driver` is the reference implementation of S,
 this evaluator exists to generate only valid operations and is compared with the driver on every program):
@@ -307,7 +308,7 @@ class Eval:
             if x not in env:
                 raise Invalid("unbound " + x)
             return env[x]
-        if t == "c":
+        if t == "c" or t == "b":
             return self.clo[x]
         if t == "i":
             return x
@@ -330,7 +331,7 @@ class Eval:
                 need(size(env[st[1]]) <= 4 * MAX_SIZE)
             elif k == "gset":
                 env[st[1]] = self.atom(st[2], env)
-            elif k == "clo":
+            elif k == "clo" or k == "box":
                 self.clo[st[1]] = env[st[2]]
             elif k == "print":
                 out.append(st[1] + " " + show(self.atom(st[2], env)))
@@ -417,12 +418,13 @@ class Gen:
 
     # --- values -------------------------------------------------------------------------------
     def val_of(self, name):
-        if self.names[name] == "clo":
+        if self.names[name] in ("clo", "box"):
             return self.ev.clo[name]
         return self.env[name]
 
     def atom_of(self, name):
-        return ("c", name) if self.names[name] == "clo" else ("h", name)
+        cls = self.names[name]
+        return ("c", name) if cls == "clo" else (("b", name) if cls == "box" else ("h", name))
 
     def live(self, kinds=None, compound=False):
         out = []
@@ -594,6 +596,12 @@ class Gen:
             self.names[f] = "clo"
             self.ev.clo[f] = self.env[x]
             self.emit(("clo", f, x))
+        elif c < 0.7 and self.names[x] == "var":
+            self.captured.add(x)
+            b = self.fresh("b")
+            self.names[b] = "box"
+            self.ev.clo[b] = self.env[x]
+            self.emit(("box", b, x))
         elif c < 0.8:
             self.define("list", [("h", x), self.any_atom()], "direct")
         elif c < 0.9:
@@ -629,7 +637,7 @@ class Gen:
         self.ops_used["set!"] = self.ops_used.get("set!", 0) + 1
 
     def step_loop(self):
-        lv = [n for n in self.live(("m", "t", "v", "l", "s")) if self.names[n] != "clo"]
+        lv = [n for n in self.live(("m", "t", "v", "l", "s")) if self.names[n] not in ("clo", "box")]
         if not lv:
             return
         x = self.r.choice(lv)
@@ -760,8 +768,8 @@ class Gen:
 def gen_program(rng, nops, nthreads=0, kont=None, layout=None):
     """a valid program (its python evaluation succeeds) and its expected output lines"""
     for _ in range(50):
-        lay = layout or rng.choice(["defines", "defines", "lets", "top"])
-        k = (rng.random() < 0.35) if kont is None else kont
+        lay = layout or rng.choice(["defines", "defines", "lets", "lets", "top"])
+        k = (rng.random() < 0.5) if kont is None else kont
         g = Gen(rng, nops, lay, nthreads=nthreads if lay != "top" or True else 0, kont=k)
         try:
             p = g.program()
@@ -830,6 +838,8 @@ def atom_text(a):
         return x
     if t == "c":
         return "(%s)" % x
+    if t == "b":
+        return "(unbox %s)" % x
     if t == "i":
         return str(x)
     return '"%s"' % x
@@ -840,9 +850,9 @@ def expr_text(op, atoms, via):
     ar = OPS[op][1]
     if via == "helper" and ar is not None:
         return "(%s%s)" % (helper_name(op), "".join(" " + a for a in args))
-    if via == "let" and atoms and atoms[0][0] in ("h", "c"):
+    if via == "let" and atoms and atoms[0][0] in ("h", "c", "b"):
         return "(let ((tmp %s)) %s)" % (args[0], call_text(op, ["tmp"] + args[1:]))
-    if via == "lambda" and atoms and atoms[0][0] in ("h", "c"):
+    if via == "lambda" and atoms and atoms[0][0] in ("h", "c", "b"):
         return "((lambda (tmp) %s) %s)" % (call_text(op, ["tmp"] + args[1:]), args[0])
     if via == "apply" and not OPS[op][0].startswith("("):
         return "(apply %s (list%s))" % (OPS[op][0], "".join(" " + a for a in args))
@@ -861,7 +871,7 @@ def render_block(stmts, mode, printer, indent, tail=""):
 
     def cont(extra_tail=None):
         return render_block(rest, mode, printer, indent, tail if extra_tail is None else extra_tail)
-    if k in ("def", "loop", "recv", "clo", "kont"):
+    if k in ("def", "loop", "recv", "clo", "box", "kont"):
         if k == "def":
             name, e = st[1], expr_text(st[2], st[3], st[4])
         elif k == "loop":
@@ -869,6 +879,8 @@ def render_block(stmts, mode, printer, indent, tail=""):
             e = "(let loop ((i 0) (acc %s)) (if (< i %d) (loop (+ i 1) %s) acc))" % (st[3], st[4], LOOP_STEEL[st[2]])
         elif k == "recv":
             name, e = st[1], "(channel/recv (channels-receiver %s))" % st[2]
+        elif k == "box":
+            name, e = st[1], "(box %s)" % st[2]
         elif k == "clo":
             # in a body of internal defines a lambda-valued define that refers to another define makes steel evaluate
             # every right-hand side first (a C01 defect reported separately): capture through a helper's parameter there
@@ -944,6 +956,8 @@ def atom_ser(a):
         return x
     if t == "c":
         return "%" + x
+    if t == "b":
+        return "&" + x
     if t == "i":
         return str(x)
     return '"%s"' % x
@@ -960,6 +974,8 @@ def ser_block(stmts, out):
             out.append("gset %s %s" % (st[1], atom_ser(st[2])))
         elif k == "clo":
             out.append("clo %s %s" % (st[1], st[2]))
+        elif k == "box":
+            out.append("box %s %s" % (st[1], st[2]))
         elif k == "print":
             out.append("print %s %s" % (st[1], atom_ser(st[2])))
         elif k == "kont":
@@ -992,6 +1008,8 @@ def parse(text):
     def atom(tok):
         if tok.startswith("%"):
             return ("c", tok[1:])
+        if tok.startswith("&"):
+            return ("b", tok[1:])
         if tok.startswith('"'):
             return ("s", tok[1:-1])
         if tok.lstrip("-").isdigit():
@@ -1015,6 +1033,8 @@ def parse(text):
             cur.append(("gset", t[1], atom(t[2])))
         elif k == "clo":
             cur.append(("clo", t[1], t[2]))
+        elif k == "box":
+            cur.append(("box", t[1], t[2]))
         elif k == "print":
             cur.append(("print", t[1], atom(t[2])))
         elif k == "kont":
